@@ -244,12 +244,13 @@ theorem go_formatLine (fuel : Nat) (ls : List (List Nat)) (contigs : List String
   have h5 : metaId "INFO" formatLine = none := by decide
   have h6 : metaId "FORMAT" formatLine = some [71, 84] := by decide
   have h7 : asciiString [71, 84] = some "GT" := by decide
+  have h8 : metaLineOk formatLine = true := by decide
   rw [parseVcfHeaderLines.go.eq_3]
   simp only [h1, h2, h3, h4, h5, h6]
-  simp [h7]
+  simp [h7, h8]
 
 
-theorem go_chromLine (cols : List String) (hc : cols ≠ []) (hcw : ∀ c ∈ cols, WfName c) (fuel : Nat)
+theorem go_chromLine (cols : List String) (hc : cols ≠ []) (hcw : ∀ c ∈ cols, WfName c) (hnd : cols.Nodup) (fuel : Nat)
     (ls : List (List Nat)) (contigs strings : List String) :
     parseVcfHeaderLines.go (fuel + 1) (chromLine cols :: ls) contigs strings =
       some (⟨cols, contigs, strings⟩, ls) := by
@@ -276,10 +277,10 @@ theorem go_chromLine (cols : List String) (hc : cols ≠ []) (hcw : ∀ c ∈ co
     exact (hcw c hc').1 e
   rw [parseVcfHeaderLines.go.eq_3]
   simp only [h1, h2, h3, h4, h5, h6]
-  simp
+  simp [hnd]
 
 theorem parseVcfHeaderLines_headerLines (cols contigs : List String) (hc : cols ≠ []) (hcw : ∀ c ∈ cols, WfName c)
-    (hg : ∀ c ∈ contigs, WfContig c) (rest : List (List Nat)) :
+    (hnd : cols.Nodup) (hg : ∀ c ∈ contigs, WfContig c) (rest : List (List Nat)) :
     parseVcfHeaderLines (headerLines cols contigs ++ rest) = some (⟨cols, contigs, ["PASS", "GT"]⟩, rest) := by
   have h0 : (strBytes "##fileformat=VCFv4.").isPrefixOf (strBytes "##fileformat=VCFv4.3") = true := by decide
   have hl : (contigs.map contigLine ++ formatLine :: chromLine cols :: rest).length + 1 =
@@ -288,7 +289,7 @@ theorem parseVcfHeaderLines_headerLines (cols contigs : List String) (hc : cols 
   unfold parseVcfHeaderLines headerLines
   simp only [List.cons_append, h0, List.append_assoc, List.nil_append]
   rw [hl, go_contigLines contigs hg]
-  rw [go_formatLine, go_chromLine cols hc hcw]
+  rw [go_formatLine, go_chromLine cols hc hcw hnd]
   simp
 
 theorem mem_joinTab {ls : List (List Nat)} {b : Nat} (h : b ∈ joinTab ls) : b = 9 ∨ ∃ l ∈ ls, b ∈ l := by
@@ -344,12 +345,12 @@ theorem splitLines_headerText (cols contigs : List String) (hcw : ∀ c ∈ cols
 
 /-- `headerText` ends with a newline, so its lines are exactly its `\n`-terminated lines and whatever follows starts a new line. -/
 theorem parseVcfHeaderLines_headerText (cols contigs : List String) (hc : cols ≠ []) (hcw : ∀ c ∈ cols, WfName c)
-    (hg : ∀ c ∈ contigs, WfContig c) (rest : List (List Nat)) :
+    (hnd : cols.Nodup) (hg : ∀ c ∈ contigs, WfContig c) (rest : List (List Nat)) :
     parseVcfHeaderLines (splitLines (headerText cols contigs) ++ rest) =
       some (⟨cols, contigs, ["PASS", "GT"]⟩, rest) := by
   have h := splitLines_headerText cols contigs hcw hg []
   rw [List.append_nil, splitLines_nil, List.append_nil] at h
   rw [h]
-  exact parseVcfHeaderLines_headerLines cols contigs hc hcw hg rest
+  exact parseVcfHeaderLines_headerLines cols contigs hc hcw hnd hg rest
 
 end Sfs
